@@ -248,6 +248,16 @@ func mkIfaceMap[K any](m ifaceMap[K], kc keyConv[K], keys func(limit int) ([]int
 				m.Sort(kc.less)
 			}
 		},
+		sortFail: func(after int) {
+			n := 0
+			m.Sort(func(a, b K) bool {
+				if n >= after {
+					panic("the caller's comparator fails")
+				}
+				n++
+				return kc.less(a, b)
+			})
+		},
 		setMax:   setMax,
 		str:      map[string]func() string{"toString": m.ToString},
 		tableLen: tableLenOf(ptr),
@@ -256,7 +266,7 @@ func mkIfaceMap[K any](m ifaceMap[K], kc keyConv[K], keys func(limit int) ([]int
 }
 
 var ifaceOps = []wop{{"put", 12}, {"putFirst", 6}, {"putLast", 6}, {"get", 3}, {"remove", 9}, {"removeFirst", 3}, {"removeLast", 3},
-	{"containsKey", 2}, {"clear", 1}, {"sortAsc", 2}, {"sortDesc", 2}, {"setMax", 3}, {"toString", 1}, {"fill", 2}}
+	{"containsKey", 2}, {"clear", 1}, {"sortAsc", 2}, {"sortDesc", 2}, {"sortFail", 1}, {"setMax", 3}, {"toString", 1}, {"fill", 2}}
 
 const ifaceCovered = "Size IsEmpty IsFull ContainsKey Get GetFirstKey GetLastKey GetFirstValue GetLastValue Put PutLast PutFirst " +
 	"Remove RemoveFirst RemoveLast Clear Sort ToString KeyArray Keys Values Entries SetMax"
@@ -361,6 +371,16 @@ func mkNumMap[K any, V any](m numMap[K, V], kc keyConv[K], vc *vcodec[V], x numE
 				m.Sort(kc.less)
 			}
 		},
+		sortFail: func(after int) {
+			n := 0
+			m.Sort(func(a, b K) bool {
+				if n >= after {
+					panic("the caller's comparator fails")
+				}
+				n++
+				return kc.less(a, b)
+			})
+		},
 		setMax:   x.setMax,
 		setNone:  x.setNone,
 		str:      map[string]func() string{"toString": m.ToString},
@@ -370,7 +390,7 @@ func mkNumMap[K any, V any](m numMap[K, V], kc keyConv[K], vc *vcodec[V], x numE
 }
 
 var numOps = []wop{{"put", 10}, {"putFirst", 5}, {"putLast", 5}, {"add", 3}, {"addFirst", 3}, {"addLast", 3}, {"get", 3}, {"remove", 9},
-	{"removeFirst", 3}, {"removeLast", 3}, {"containsKey", 2}, {"containsValue", 1}, {"containsValueOf", 2}, {"clear", 1}, {"sortAsc", 2}, {"sortDesc", 2},
+	{"removeFirst", 3}, {"removeLast", 3}, {"containsKey", 2}, {"containsValue", 1}, {"containsValueOf", 2}, {"clear", 1}, {"sortAsc", 2}, {"sortDesc", 2}, {"sortFail", 1},
 	{"setMax", 3}, {"setNone", 1}, {"toString", 1}, {"fill", 2}}
 
 const numCovered = "Size IsEmpty IsFull ContainsKey ContainsValue Get GetFirstKey GetLastKey GetFirstValue GetLastValue Put PutLast PutFirst " +
@@ -443,6 +463,16 @@ func mkSet[K any](m setAPI[K], kc keyConv[K], keyRet func(x interface{}) ret, ke
 				m.Sort(kc.less)
 			}
 		},
+		sortFail: func(after int) {
+			n := 0
+			m.Sort(func(a, b K) bool {
+				if n >= after {
+					panic("the caller's comparator fails")
+				}
+				n++
+				return kc.less(a, b)
+			})
+		},
 		setMax:   setMax,
 		str:      map[string]func() string{"toString": m.ToString},
 		tableLen: tableLenOf(ptr),
@@ -470,7 +500,7 @@ func setRet[K any](from func(K) int, keyStr func(int) string) func(x interface{}
 }
 
 var setOps = []wop{{"put", 12}, {"putFirst", 6}, {"putLast", 6}, {"remove", 9}, {"removeFirst", 3}, {"removeLast", 3},
-	{"containsKey", 3}, {"clear", 1}, {"sortAsc", 2}, {"sortDesc", 2}, {"setMax", 3}, {"toString", 1}, {"fill", 2}}
+	{"containsKey", 3}, {"clear", 1}, {"sortAsc", 2}, {"sortDesc", 2}, {"sortFail", 1}, {"setMax", 3}, {"toString", 1}, {"fill", 2}}
 
 const setCovered = "Size IsEmpty IsFull Contains GetFirst GetLast Put PutLast PutFirst Remove RemoveFirst RemoveLast Clear Sort ToString Keys SetMax"
 
